@@ -14,9 +14,9 @@ import (
 
 // one scripted answer to a probe
 type c19Answer struct {
-	Via     string        `json:"via"`   // direct | relay | tcp | none
+	Via     string        `json:"via"`     // direct | relay | tcp | none
 	SeqRel  int           `json:"seq_rel"` // 0 = the probe's own number, +-1, -100 (an old one)
-	At      time.Duration `json:"at_ns"` // offset from the probe's ping
+	At      time.Duration `json:"at_ns"`   // offset from the probe's ping
 	Dup     bool          `json:"duplicate"`
 	TCPKind string        `json:"tcp_kind,omitempty"` // ack | wrong-seq | wrong-type | garbage | silent
 	Nacks   int           `json:"nacks"`              // how many of the indirect peers send a nack
@@ -476,7 +476,7 @@ func TestC19(t *testing.T) {
 		"One real node whose peers are all scripted fake peers, in virtual time. Prober: for every probe of the target the harness places the answer: an ack directly, via a third party, or as the TCP fallback reply (right ack / wrong sequence number / wrong type / garbage / silence), carrying the probe's number, +-1 or an old one, duplicated or not, before the UDP timeout, between it and the awareness-scaled deadline, or after the deadline (offsets kept away from the deadlines), with 0..k nacks from the indirect peers (some of which advertise PMax 3 and never nack); the initial health score is set by refutations. Oracle: answered (right number, before the deadline) <=> not suspected; the health score moves exactly by -1 / +missed nacks / +1 and stays in [0, max-1]. Relay: 60 indirect-ping requests per case with the target answering early, after the probe timeout, with a wrong number, not at all, or a third party acking: exactly one forwarded ping with a number that is not pending, exactly one relayed ack under the requester's number iff the target's ack came in time, exactly one nack iff requested and no timely ack, nothing else; no handler left, own health untouched. Cell = (via, seq relation, timing, tcp kind, indirect checks, health) / (relay mode, nack).")
 	defer run.Finish()
 	run.Assume("scripted arrivals stay >= 5 ms away from the UDP timeout and from every deadline (ties are the node's choice)", "the prober's deadline is read from the wire: ping time + (health score at that instant + 1) x ProbeInterval")
-	n := run.Pick(160, 8000)
+	n := run.Pick(400, 64000)
 	for i := 0; i < n; i++ {
 		if !run.Mine(i) {
 			continue
@@ -504,7 +504,7 @@ func TestC19(t *testing.T) {
 			run.Sample(sc)
 		}
 	}
-	nr := run.Pick(16, 600)
+	nr := run.Pick(24, 4000)
 	for i := 0; i < nr; i++ {
 		if !run.Mine(i) {
 			continue
